@@ -375,6 +375,13 @@ func (sc *SubCache[EntityT, ExcerptT, CacheT]) Resolve(id entity.Id) (CacheT, er
 	cached = sc.makeCached(e, sc.entityUpdated)
 
 	sc.mu.Lock()
+	if existing, ok := sc.cached[id]; ok {
+		// Another goroutine loaded the same entity while we were reading it. Keep a single
+		// instance: with two of them, commits made through one would discard those of the other.
+		sc.lru.Get(id)
+		sc.mu.Unlock()
+		return existing, nil
+	}
 	sc.cached[id] = cached
 	sc.lru.Add(id)
 	sc.mu.Unlock()
